@@ -41,10 +41,10 @@ fn project(base: Res, elem: &dyn Fn(&Value) -> Res) -> Res {
     }
 }
 
-pub const LAWS: &[&str] = &["pipe", "list-wildcard", "flatten", "slice", "filter", "object-wildcard", "multi-list", "multi-hash", "not", "and", "or"];
+pub const LAWS: &[&str] = &["pipe", "list-wildcard", "flatten", "slice", "filter", "object-wildcard", "multi-list", "multi-hash", "not", "and", "or", "list-wildcard-chain", "slice-chain", "flatten-chain"];
 
 /// expected value of the compound from the parts' individual results
-fn expected(law: &str, l: &Expression<'_>, r: &Expression<'_>, r_in_list: &Expression<'_>, d: &Value) -> Res {
+fn expected(law: &str, l: &Expression<'_>, r: &Expression<'_>, r_in_list: &Expression<'_>, r_chain: &Expression<'_>, d: &Value) -> Res {
     match law {
         "pipe" => {
             let lv = search(l, d)?;
@@ -87,6 +87,46 @@ fn expected(law: &str, l: &Expression<'_>, r: &Expression<'_>, r_in_list: &Expre
                 for x in xs {
                     if truthy(&search(r, &x)?) && !x.is_null() {
                         out.push(x);
+                    }
+                }
+                Ok(Value::Array(out))
+            }
+            _ => Ok(Value::Null),
+        },
+        // right-hand sides that continue with a field and a filter: applied per element
+        "list-wildcard-chain" => project(search(l, d), &|x| search(r_chain, x)),
+        "slice-chain" => {
+            let base = search(l, d).map(|v| match v {
+                Value::Array(xs) => Value::Array(xs.into_iter().skip(1).collect()),
+                _ => Value::Null,
+            });
+            project(base, &|x| search(r_chain, x))
+        }
+        "flatten-chain" => {
+            let base = search(l, d).map(|v| match v {
+                Value::Array(xs) => {
+                    let mut out = Vec::new();
+                    for x in xs {
+                        match x {
+                            Value::Array(inner) => out.extend(inner),
+                            o => out.push(o),
+                        }
+                    }
+                    Value::Array(out)
+                }
+                _ => Value::Null,
+            });
+            project(base, &|x| search(r_chain, x))
+        }
+        "filter-chain" => match search(l, d)? {
+            Value::Array(xs) => {
+                let mut out = Vec::new();
+                for x in xs {
+                    if truthy(&search(r, &x)?) {
+                        let v = search(r_chain, &x)?;
+                        if !v.is_null() {
+                            out.push(v);
+                        }
                     }
                 }
                 Ok(Value::Array(out))
@@ -139,6 +179,10 @@ fn compound(law: &str, l: &str, r: &str) -> String {
         "not" => format!("!({})", l),
         "and" => format!("({}) && ({})", l, r),
         "or" => format!("({}) || ({})", l, r),
+        "list-wildcard-chain" => format!("({})[*].a[?{}]", l, r),
+        "slice-chain" => format!("({})[1:].a[?{}]", l, r),
+        "flatten-chain" => format!("({})[].a[?{}]", l, r),
+        "filter-chain" => format!("({})[?{}].a[?{}]", l, r, r),
         _ => unreachable!(),
     }
 }
@@ -181,6 +225,10 @@ pub fn check_pair(l: &str, r: &str, docs: &[Value], st: &mut Stats) {
         Some(e) => e,
         None => return,
     };
+    let rc = match compile(&format!("a[?{}]", r)) {
+        Some(e) => e,
+        None => return,
+    };
     st.states += 1;
     for law in LAWS {
         let src = compound(law, l, r);
@@ -202,7 +250,7 @@ pub fn check_pair(l: &str, r: &str, docs: &[Value], st: &mut Stats) {
             st.transitions += 1;
             st.evaluations += 1;
             st.validated += 1;
-            let want = expected(law, &le, &re, &rl, d);
+            let want = expected(law, &le, &re, &rl, &rc, d);
             let got = search(&ce, d);
             if !same(&want, &got) {
                 st.outcome("LAW-BROKEN");
